@@ -609,10 +609,7 @@ theorem decodeBlockT_eq (signed : Bool) (b : Nat) :
 
 /-! ### the six decoders -/
 
-theorem twoPowiT_eq (exp : Nat) (h : exp ≤ 31) : twoPowiT exp 25 = some () := by
-  unfold twoPowiT
-  rw [ckI8_of_range (by omega), bind_some', dbgP_of (by omega), bind_some', ckI32_of_range (by omega), bind_some',
-    shl_of_lt (by omega), bind_some', pure_some']
+theorem twoPowiT_eq (exp : Nat) (h : exp ≤ 31) : twoPowiT exp 25 = some () := twoPowiT_of (by omega)
 
 theorem exp_le (x : Nat) : (x >>> 10) &&& 31 ≤ 31 := Nat.and_le_right
 
